@@ -11,6 +11,11 @@
 
    The accept / reject loop, the loss bookkeeping and the strategies are Model/LM.v (property C08).
 
+   The model follows /repo after commit a845d9f (frozen parameters: their Jacobian blocks are dropped in
+   flatten_row_jacobian, update_parameter splits and zips over the trainable parameters only).  The code
+   before that commit is kept as [flatten_row_jacobian_old], [update_parameter_old], [gn_step_old],
+   [lm_trial_old] for the history theorems only (it raised whenever a parameter was frozen).
+
    Abstracted (Section variables, never axioms): the linear solver ([None] = it raises), the
    correctors (by identity: which corrector object is applied to which residual is modelled, what a
    FastTriggs / Triggs object computes is Model/Kernel.v, property C09), the exponential map used
@@ -65,9 +70,15 @@ Definition hcat_all (Ms : list (@mat F)) : @mat F :=
 Record param := { pk : pkind; pdata : list F; preq : bool }.
 Definition pnumel (p : param) : nat := length (pdata p).
 
-(* RobustModel.flatten_row_jacobian: Jr = the blocks J[i][0..] of one residual (flat, row-major),
-   zipped with ALL parameters of the model (named_parameters(), frozen ones included) *)
+(* RobustModel.flatten_row_jacobian: Jr = the blocks J[i][0..] of one residual (flat, row-major, one per
+   named parameter, frozen ones included: that is what modjac returns), zipped with ALL parameters; only
+   the blocks of the parameters with requires_grad are kept:
+     torch.cat([j.reshape(-1, p.numel()) for j, p in zip(J, params_values) if p.requires_grad], 1) *)
 Definition flatten_row_jacobian (Jr : list (list F)) (ps : list param) : @mat F :=
+  hcat_all (map (fun jp => reshape_cols (pnumel (snd jp)) (fst jp))
+                (filter (fun jp => preq (snd jp)) (combine Jr ps))).
+(* before a845d9f: no filter *)
+Definition flatten_row_jacobian_old (Jr : list (list F)) (ps : list param) : @mat F :=
   hcat_all (zipw (fun j p => reshape_cols (pnumel p) j) Jr ps).
 
 (* ---------------- correctors ---------------- *)
@@ -168,12 +179,15 @@ Record problem := {
   pbC : list cid;
   pbP : list param }.
 
-Definition assemble (pb : problem) : option (list F * option (@mat F) * @mat F) :=
-  let Js := map (fun Jr => flatten_row_jacobian Jr (pbP pb)) (pbJ pb) in
+Definition assemble_gen (flat : list (list F) -> list param -> @mat F) (pb : problem)
+  : option (list F * option (@mat F) * @mat F) :=
+  let Js := map (fun Jr => flat Jr (pbP pb)) (pbJ pb) in
   match correct_from (pbC pb) 0 (combine (pbR pb) Js) with
   | None => None
   | Some RJ => normalize_RWJ (map fst RJ) (pbW pb) (map snd RJ)
   end.
+Definition assemble := assemble_gen flatten_row_jacobian.
+Definition assemble_old := assemble_gen flatten_row_jacobian_old.
 
 (* ---------------- the linear systems ---------------- *)
 Definition vneg (v : list F) : list F := map opp v.
@@ -234,26 +248,47 @@ Fixpoint split_go (sizes : list nat) (v : list F) : list (list F) :=
 Definition split_sizes (sizes : list nat) (v : list F) : option (list (list F)) :=
   if Nat.eqb (sumnat sizes) (length v) then Some (split_go sizes v) else None.
 
-(* [p.add_(d.view(p.shape)) for p, d in zip(params, steps) if p.requires_grad] *)
-Fixpoint zip_update (ps : list param) (steps : list (list F)) : option (list param) :=
+(* params = [p for p in params if p.requires_grad]
+   steps = step.split([p.numel() for p in params])
+   [p.add_(d.view(p.shape)) for p, d in zip(params, steps)]
+   (in place: the frozen parameters stay where they are in the model's parameter list) *)
+Fixpoint update_trainable (ps : list param) (steps : list (list F)) : list param :=
+  match ps with
+  | [] => []
+  | p :: ps' =>
+      if preq p then
+        match steps with
+        | d :: steps' => param_add p d :: update_trainable ps' steps'
+        | [] => p :: update_trainable ps' []                    (* zip stops at the shorter one *)
+        end
+      else p :: update_trainable ps' steps
+  end.
+Definition update_parameter (ps : list param) (step : list F) : option (list param) :=
+  match split_sizes (map pnumel (filter preq ps)) step with
+  | None => None                                                (* RuntimeError: split_with_sizes *)
+  | Some steps => Some (update_trainable ps steps)
+  end.
+
+(* before a845d9f:
+     steps = step.split([p.numel() for p in params if p.requires_grad])
+     [p.add_(d.view(p.shape)) for p, d in zip(params, steps) if p.requires_grad] *)
+Fixpoint zip_update_old (ps : list param) (steps : list (list F)) : option (list param) :=
   match ps, steps with
   | p :: ps', d :: steps' =>
       if preq p then
         if Nat.eqb (length d) (pnumel p) then                  (* d.view(p.shape) *)
-          match zip_update ps' steps' with
+          match zip_update_old ps' steps' with
           | Some r => Some (param_add p d :: r)
           | None => None
           end
         else None
-      else match zip_update ps' steps' with Some r => Some (p :: r) | None => None end
+      else match zip_update_old ps' steps' with Some r => Some (p :: r) | None => None end
   | _, _ => Some ps                                             (* zip stops at the shorter one *)
   end.
-
-(* steps = step.split([p.numel() for p in params if p.requires_grad]) *)
-Definition update_parameter (ps : list param) (step : list F) : option (list param) :=
+Definition update_parameter_old (ps : list param) (step : list F) : option (list param) :=
   match split_sizes (map pnumel (filter preq ps)) step with
-  | None => None                                                (* RuntimeError: split_with_sizes *)
-  | Some steps => zip_update ps steps
+  | None => None
+  | Some steps => zip_update_old ps steps
   end.
 
 (* ---------------- one GN step / one LM trial ---------------- *)
@@ -262,20 +297,23 @@ Variable solver : @mat F -> list F -> option (list F).
 Record trial_out := { tA : @mat F; tb : list F; tD : list F; tP : list param }.
 
 (* GaussNewton.step; None = raises (assembly, solver or update_parameter) *)
-Definition gn_step (pb : problem) : option trial_out :=
-  match assemble pb with
+Definition gn_step_gen (asm : problem -> option (list F * option (@mat F) * @mat F))
+                       (upd : list param -> list F -> option (list param)) (pb : problem) : option trial_out :=
+  match asm pb with
   | None => None
   | Some (R, W, J) =>
       let '(A, b) := gn_system R W J in
       match solver A b with
       | None => None
       | Some D =>
-          match update_parameter (pbP pb) D with
+          match upd (pbP pb) D with
           | None => None
           | Some ps => Some {| tA := A; tb := b; tD := D; tP := ps |}
           end
       end
   end.
+Definition gn_step := gn_step_gen assemble update_parameter.
+Definition gn_step_old := gn_step_gen assemble_old update_parameter_old.
 
 (* LevenbergMarquardt.step before the loop: (A_0, J_T, R) *)
 Definition lm_init (mn mx : F) (pb : problem) : option (@mat F * @mat F * list F) :=
@@ -286,17 +324,20 @@ Definition lm_init (mn mx : F) (pb : problem) : option (@mat F * @mat F * list F
 
 (* one pass of the while loop up to and including update_parameter *)
 Inductive tres := TRaise | TSolverFailed | TDone (o : trial_out).
-Definition lm_trial (Aprev JT : @mat F) (R : list F) (lam : F) (ps : list param) : tres :=
+Definition lm_trial_gen (upd : list param -> list F -> option (list param))
+    (Aprev JT : @mat F) (R : list F) (lam : F) (ps : list param) : tres :=
   let A := lm_damp lam Aprev in
   let b := lm_b JT R in
   match solver A b with
   | None => TSolverFailed                                       (* except: ... break *)
   | Some D =>
-      match update_parameter ps D with
+      match upd ps D with
       | None => TRaise                                          (* not inside the try *)
       | Some ps' => TDone {| tA := A; tb := b; tD := D; tP := ps' |}
       end
   end.
+Definition lm_trial := lm_trial_gen update_parameter.
+Definition lm_trial_old := lm_trial_gen update_parameter_old.
 
 End Optim.
 
@@ -387,9 +428,9 @@ Definition gn_check (c : opt_case) (impl : option (list (list Q) * list Q * list
   match impl with
   | None =>
       (* the solver that would have been called is irrelevant when the assembly or the update raises;
-         a step of the right length is supplied so that only those two can make the model raise *)
+         a step with one entry per trainable parameter element is supplied so that only those two can make the model raise *)
       let pb := oc_problem c in
-      let n := sumnat (map (@pnumel Q) (pbP pb)) in
+      let n := sumnat (map (@pnumel Q) (filter (@preq Q) (pbP pb))) in
       match gn_step (corr_table (oc_corr c)) (exp_table (oc_exp c)) (fun _ _ => Some (repeat 0%Q n)) pb with
       | None => 0 | Some _ => 1 end
   | Some (A, b, D, P) =>
@@ -438,7 +479,7 @@ Definition lm_check (c : opt_case) (mn mx lam0 : Q) (impl : option (list lm_tria
   | Some (A0, JT, R) =>
       match impl with
       | None =>
-          let n := sumnat (map (@pnumel Q) (pbP pb)) in
+          let n := sumnat (map (@pnumel Q) (filter (@preq Q) (pbP pb))) in
           match lm_trial (exp_table (oc_exp c)) (fun _ _ => Some (repeat 0%Q n)) A0 JT R lam0 (pbP pb) with
           | TRaise => 0 | _ => 1 end
       | Some trials => lm_check_trials c A0 JT R (pbP pb) trials
